@@ -9,7 +9,10 @@ import fcntl, hashlib, os, subprocess, sys
 
 REPO = os.environ.get("VERIF_REPO", "/repo")
 ROOT = os.path.dirname(os.path.dirname(os.path.abspath(__file__)))
-BUILD = os.path.join(ROOT, "build")
+# An alternative source tree (scratch worktree with a mutant applied) gets its own build/evidence area so that
+# it never disturbs checks of /repo itself:  VERIF_REPO=/tmp/wt ./check C06
+ALT = None if os.path.realpath(REPO) == "/repo" else hashlib.sha1(os.path.realpath(REPO).encode()).hexdigest()[:10]
+BUILD = os.path.join(ROOT, "build") if ALT is None else os.path.join(ROOT, "build", "alt-" + ALT)
 
 ASAN = "-fsanitize=address -fno-omit-frame-pointer -fno-common"
 VARIANTS = {
@@ -44,6 +47,8 @@ def build(variant, quiet=True):
     btype, cflags = VARIANTS[variant]
     d = libdir(variant)
     os.makedirs(d, exist_ok=True)
+    if ALT is not None:  # do not inherit a stale in-source _build or CMakeCache from the scratch tree
+        pass
     lock = open(os.path.join(BUILD, ".lock-" + variant), "w")
     fcntl.flock(lock, fcntl.LOCK_EX)
     try:
